@@ -71,6 +71,7 @@ func init() {
 					if err != nil || pk == nil {
 						return
 					}
+					reached("sign")
 					_ = s.Verify(pk, signMsg, kps[0].sig, nil)
 					_, _ = pk.MarshalBinary()
 					_ = pk.Equal(kps[0].pk)
@@ -196,6 +197,7 @@ func registerMode(m modePkg) {
 		Entry{Name: m.name + ".Verify(unmarshalled-pk)", Group: "sign",
 			Call: func(b []byte) {
 				if f := m.unmarshalPK(b); f != nil {
+					reached("sign")
 					f()
 				}
 			},
@@ -399,30 +401,32 @@ func registerBLS[K bls.KeyGroup](name string, k K) {
 				}
 			},
 			Valid: func(i int) []byte { return skbs[i%2] }},
-		Entry{Name: name + ".Verify(sig)", Group: "bls", NValid: 2, Cost: 10,
+		Entry{Name: name + ".Verify(sig)", Group: "bls", NValid: 2, Cost: 3,
 			Call:  func(b []byte) { _ = bls.Verify(pks[0], msgs[0], b) },
 			Valid: func(i int) []byte { return sigs[i%2] }},
-		Entry{Name: name + ".Verify(unmarshalled-pk)", Group: "bls", NValid: 2, Cost: 10,
+		Entry{Name: name + ".Verify(unmarshalled-pk)", Group: "bls", NValid: 2, Cost: 3,
 			Call: func(b []byte) {
 				p := new(bls.PublicKey[K])
 				if p.UnmarshalBinary(b) == nil {
+					reached("bls")
 					_ = bls.Verify(p, msgs[0], sigs[0])
 				}
 			},
 			Valid: func(i int) []byte { return pkbs[i%2] }},
-		Entry{Name: name + ".Aggregate(sig-element)", Group: "bls", NValid: 2, Cost: 4,
+		Entry{Name: name + ".Aggregate(sig-element)", Group: "bls", NValid: 2, Cost: 2,
 			Call:  func(b []byte) { _, _ = bls.Aggregate(k, []bls.Signature{sigs[0], b, sigs[2]}) },
 			Valid: func(i int) []byte { return sigs[1+i%2] }},
-		Entry{Name: name + ".Aggregate(single)", Group: "bls", NValid: 2, Cost: 4,
+		Entry{Name: name + ".Aggregate(single)", Group: "bls", NValid: 2, Cost: 2,
 			Call:  func(b []byte) { _, _ = bls.Aggregate(k, []bls.Signature{b}) },
 			Valid: func(i int) []byte { return sigs[i%2] }},
-		Entry{Name: name + ".VerifyAggregate(aggsig)", Group: "bls", Cost: 25,
+		Entry{Name: name + ".VerifyAggregate(aggsig)", Group: "bls", Cost: 6,
 			Call:  func(b []byte) { _ = bls.VerifyAggregate(pks, msgs, b) },
 			Valid: func(int) []byte { return agg }},
-		Entry{Name: name + ".VerifyAggregate(unmarshalled-pk)", Group: "bls", NValid: 2, Cost: 25,
+		Entry{Name: name + ".VerifyAggregate(unmarshalled-pk)", Group: "bls", NValid: 2, Cost: 6,
 			Call: func(b []byte) {
 				p := new(bls.PublicKey[K])
 				if p.UnmarshalBinary(b) == nil {
+					reached("bls")
 					_ = bls.VerifyAggregate([]*bls.PublicKey[K]{pks[0], p, pks[2]}, msgs, agg)
 				}
 			},
